@@ -169,7 +169,10 @@ func runC08Period(m *vk.M, idx int, sc c08PScenario, mr *miniredis.Miniredis, st
 		takes++
 		m.Count("period.take", 1)
 		if err != nil {
-			m.Violate("C08:period:take-error", desc(), "step %d: Take(k%d) on a healthy server returned error %v (code %s)", si, st.Key, err, c08CodeName(code))
+			// an error is not an admission: outside the statement, nothing to compare
+			m.Count("period.take-error(scenario abandoned)", 1)
+			m.Note("case %d step %d: Take(k%d) on a healthy server returned error %v (code %s)", idx, si, st.Key, err, c08CodeName(code))
+			c08TakeErrors.Add(1)
 			return
 		}
 		phase := "in-window"
@@ -212,7 +215,19 @@ func runC08Period(m *vk.M, idx int, sc c08PScenario, mr *miniredis.Miniredis, st
 	}
 }
 
-func c08Wall(m *vk.M, t0 time.Time) { m.Extra("wall_s", time.Since(t0).Round(10*time.Millisecond).Seconds()) }
+func c08Wall(m *vk.M, t0 time.Time) {
+	m.Extra("wall_s", time.Since(t0).Round(10*time.Millisecond).Seconds())
+}
+
+// c08TakeErrors counts Take calls that returned an error on a healthy server.
+// They are not judged; too many of them make the run inconclusive.
+var c08TakeErrors atomic.Int64
+
+func c08TooManyErrors(m *vk.M, cases int) {
+	if e := c08TakeErrors.Load(); e > 2 && e > int64(cases/20) {
+		m.Inconclusive("%d Take calls returned an error on a healthy server (of %d scenarios): nothing to judge", e, cases)
+	}
+}
 
 func c08Trunc(s string, n int) string {
 	if len(s) > n {
@@ -259,6 +274,7 @@ func TestVerifC08PeriodSeq(t *testing.T) {
 		}()
 	}
 	wg.Wait()
+	c08TooManyErrors(m, n)
 }
 
 // ---------------------------------------------------------------------------
@@ -342,7 +358,9 @@ func TestVerifC08PeriodRace(t *testing.T) {
 				minEndNA, minEndOver := int64(1<<62), int64(1<<62)
 				for _, o := range os {
 					if o.err != nil {
-						m.Violate("C08:period-race:take-error", desc, "window %s key k%d: Take returned error %v on a healthy server", win, k, o.err)
+						m.Count("race.take-error(round abandoned)", 1)
+						m.Note("case %d window %s key k%d: Take returned error %v on a healthy server", i, win, k, o.err)
+						c08TakeErrors.Add(1)
 						return false
 					}
 					switch o.code {
@@ -437,4 +455,5 @@ func TestVerifC08PeriodRace(t *testing.T) {
 		}
 		mr.FlushAll()
 	}
+	c08TooManyErrors(m, rounds)
 }
